@@ -143,6 +143,8 @@ def dual_bloom(
                 backend.get_bits(_true_bloom_key, *indexes_true),
                 backend.get_bits(_false_bloom_key, *indexes_false),
             )
+            if true_values is None or false_values is None:
+                return await func(*args, **kwargs)
             if not_set(true_values) and not_set(false_values):
                 # not set yet
                 result = await func(*args, **kwargs)
